@@ -118,7 +118,11 @@ func (s *S) Run(c *scen.Ctx) {
 		qmax = int32(ncallers)
 	}
 	c.Describe("obj_queue_max", qmax)
-	comm := world.NewClient(world.ClientOpts{InvokeTimeoutMs: s.timeout, IdleTimeout: idle, ObjQueueMax: qmax})
+	// a short send queue: requests that could not be sent while the server was away must not
+	// stay in it and use it up
+	qlen := []int{0, 0, 2, 3}[simrt.Draw(4, "c11.sendqueue")]
+	c.Describe("send_queue_len", qlen)
+	comm := world.NewClient(world.ClientOpts{InvokeTimeoutMs: s.timeout, IdleTimeout: idle, ObjQueueMax: qmax, QueueLen: qlen})
 	if s.realPeer {
 		s.runRealPeer(c)
 	} else {
